@@ -10,7 +10,7 @@ return check" is re-read from the source on every run: `cfg_argsBeforeBody`, `cf
 element, **kwargs value) / the produced value does not `conform`.  The proofs go through C01: what one check accepts
 conforms (`sound_checkType`), hence inherit C01's guards (class table with unique names for string annotations, values
 without NamedTuple instances / one-shot iterators).  The generator protocol (yield / send / return checks of
-GeneratorWrapper) is the theorem `generator_guard` of the GenWrap model.
+GeneratorWrapper) is the theorem `generator_guard_full_proved` of the GenWrap model (every step, `throw` included).
 -/
 namespace PedVerif.Call
 open PedVerif.Checker PedVerif.Gen.CallTables
